@@ -163,18 +163,8 @@ func (c *Ctx) checkDecoderValidations() {
 		var out []*ssa.Return
 		ei := errResultIndex(fn.Signature)
 		for _, r := range returnsOf(fn) {
-			v := retVal(r, ei)
-			if mayBeNil(v) {
+			if retMayBeNil(r, ei) {
 				out = append(out, r)
-				continue
-			}
-			// a variable error that may be nil (DecodePollResponseWithRelayURL returns err)
-			if ph, ok := v.(*ssa.Phi); ok {
-				for _, e := range ph.Edges {
-					if isNilConst(e) {
-						out = append(out, r)
-					}
-				}
 			}
 		}
 		return out
@@ -290,11 +280,13 @@ func (c *Ctx) checkDecoderValidations() {
 			bad := false
 			n := 0
 			for _, r := range returnsOf(fh) {
-				if !mayBeNil(retVal(r, 1)) {
-					// an error return: the error of hex decoding or forwarded verdict
-					if cc, _, ok := callResult(retVal(r, 1)); ok && staticCallee(cc) == fb {
-						n++
-					}
+				// the forwarded verdict of FingerprintFromBytes (value and error of one call)
+				if cc, i, ok := callResult(retVal(r, 1)); ok && staticCallee(cc) == fb && i == 1 && isResultOfCall(retVal(r, 0), cc, 0) {
+					n++
+					continue
+				}
+				if !retMayBeNil(r, 1) {
+					// an error return (hex decoding failed)
 					continue
 				}
 				bad = true
@@ -385,7 +377,7 @@ func (c *Ctx) checkMessageDefaults() {
 		// awareness flag = AcceptedRelayPattern != nil
 		okAware := false
 		for _, r := range returnsOf(fn) {
-			if len(r.Results) < 7 || !mayBeNil(retVal(r, 6)) {
+			if len(r.Results) < 7 || !retMayBeNil(r, 6) {
 				continue
 			}
 			a, pos := normCond(retVal(r, 5))
